@@ -154,6 +154,7 @@ fn main() {
         println!("{}", p_tables::dump());
         return;
     }
+    engine::start_watchdog(if tier == "thorough" { 900 } else { 240 });
     let model = Model::new(&model_path);
     let corpus_lines: Vec<String> = if !replay.is_empty() {
         let text = std::fs::read_to_string(&replay).unwrap_or_default();
